@@ -208,7 +208,8 @@ package prefilter
 //@   props C16
 //@   requires t != nil && start >= 0 && t.candidates < 18446744073709551615
 //@   modifies t.active, t.candidates, t.confirms
-//@   ensures pfFirst(t.inner, haystack, start, result)
+//@   ensures old(t.active) ==> pfFirst(t.inner, haystack, start, result)
+//@   ensures !old(t.active) ==> pfFirst(t.inner, haystack, start, result)
 
 //@ func (*TrackedPrefilter).Find
 //@   props C16 C07
